@@ -325,12 +325,14 @@ RollbackF(st) ==
      ELSE /\ file' = fT /\ tipk' = tT /\ UNCHANGED up
           /\ Finish(Act("RollbackF", <<>>, 1, st, "ok"))
 
-\* Orderly close + reopen.
-Reopen ==
+\* Orderly close + reopen. as = 1: the filter store is opened with a header
+\* state assertion that MATCHES what is stored (neutrino.Config.AssertFilterHeader);
+\* a passing assertion must not change anything about start-up.
+Reopen(as) ==
   /\ up = 1 /\ nops < MaxOps
   /\ nops' = nops + 1 /\ UNCHANGED <<nfaults, ncrashes>>
   /\ OpenBoth
-  /\ Finish(Act("Reopen", <<>>, 0, <<"none", 0>>, IF up' = 1 THEN "ok" ELSE "err"))
+  /\ Finish(Act("Reopen", <<>>, as, <<"none", 0>>, IF up' = 1 THEN "ok" ELSE "err"))
 
 \* The process dies while no store call is running.
 Crash ==
@@ -340,11 +342,11 @@ Crash ==
   /\ Finish(Act("Crash", <<>>, 0, <<"none", 0>>, "crash"))
 
 \* Restart after a crash: all volatile state is gone, both stores are opened.
-Recover ==
+Recover(as) ==
   /\ up = 2
   /\ UNCHANGED <<nops, nfaults, ncrashes>>
   /\ OpenBoth
-  /\ Finish(Act("Recover", <<>>, 0, <<"none", 0>>, IF up' = 1 THEN "ok" ELSE "err"))
+  /\ Finish(Act("Recover", <<>>, as, <<"none", 0>>, IF up' = 1 THEN "ok" ELSE "err"))
 
 Init ==
   /\ file = [B |-> CellsOf(<<0>>), F |-> CellsOf(<<0>>)]
@@ -361,9 +363,9 @@ Next ==
   \/ \E k \in 0..MaxBatch : \E st \in Stops(k) : AppendF(k, st)
   \/ \E n \in 0..(MaxLen + 1) : \E st \in RbStops : RollbackB(n, st)
   \/ \E st \in RbStops : RollbackF(st)
-  \/ Reopen
+  \/ \E as \in {0, 1} : Reopen(as)
   \/ Crash
-  \/ Recover
+  \/ \E as \in {0, 1} : Recover(as)
 
 Spec == Init /\ [][Next]_vars
 
